@@ -1,6 +1,6 @@
 (* NumberLex.v — C17, lexer layer: which sub-lexer of lex_token answers at each position of the text
    pre ++ digits ++ [a; b] ++ post, and why every earlier one fails. *)
-Require Import Base Overlap Suggestion Tables_number Number NumberArith ListLemmas.
+Require Import Base Overlap Suggestion Tables_number Number NumberArith ListLemmas C17Texts.
 From Coq Require Import List Arith NArith Bool Lia.
 Import ListNotations.
 
@@ -973,5 +973,122 @@ Section LexFacts.
     rewrite HLB in HL. cbn [bind] in HL.
     exists LA, LB. unfold lex_doc. subst T. unfold text, char in *. rewrite HL. cbn [Nat.add].
     repeat split; assumption.
+  Qed.
+
+  (* ---------------------------------------------------------------------------------------------- *)
+  (* SEVERAL instances (C17Texts.mtext): the token list is  LA1 ++ F q1 i1 ++ LA2 ++ F q2 i2 ++ .. ++ LB  *)
+  (* with number-free, well-formed stretches LA / LB in between; F gives the tokens of one instance    *)
+  (* ---------------------------------------------------------------------------------------------- *)
+  Definition inst_len (i : inst) : nat := length (i_pre i) + length (i_digits i) + 2.
+  Inductive mshp (F : nat -> inst -> list token) : nat -> list inst -> list token -> Prop :=
+  | mshp_nil q L : nonum L -> wordwf L -> mshp F q [] L
+  | mshp_cons q i r LA L : nonum LA -> wordwf LA -> mshp F (q + inst_len i) r L ->
+      mshp F q (i :: r) (LA ++ F q i ++ L).
+
+  (* as the lexer leaves them: the Number token (no suffix yet) and the two-letter Word *)
+  Definition F_raw (q : nat) (i : inst) : list token :=
+    [mktok (mkspan (q + length (i_pre i)) (q + length (i_pre i) + length (i_digits i)))
+           (KNumber (VInt (parse_dec (i_digits i))) None);
+     mktok (mkspan (q + length (i_pre i) + length (i_digits i)) (q + length (i_pre i) + length (i_digits i) + 2)) KWord].
+
+  Lemma pre_okb_unpack (pre : text) : pre_okb U pre = true ->
+    Forall pre_char_ok pre /\ Forall (fun c => c <> 64%N) pre
+    /\ match last_error pre with Some cl => u_lingual U cl = false | None => True end.
+  Proof.
+    unfold pre_okb. rewrite andb_true_iff. intros [H1 H3]. rewrite forallb_forall in H1. repeat split.
+    - apply Forall_forall. intros c Hc. specialize (H1 c Hc). rewrite !andb_true_iff, !negb_true_iff in H1.
+      destruct H1 as [[A B] _]. split; [exact A | apply N.eqb_neq; exact B].
+    - apply Forall_forall. intros c Hc. specialize (H1 c Hc). rewrite !andb_true_iff, !negb_true_iff in H1.
+      destruct H1 as [_ C]. apply N.eqb_neq; exact C.
+    - destruct (last_error pre); [apply negb_true_iff; exact H3 | exact I].
+  Qed.
+  Lemma digits_okb_unpack (D : text) : digits_okb D = true ->
+    D <> [] /\ Forall (fun c => is_ascii_digit c = true) D /\ (parse_dec D < two53)%N.
+  Proof.
+    unfold digits_okb. rewrite !andb_true_iff, negb_true_iff. intros [[H1 H2] H3]. repeat split.
+    - intros ->. cbn in H1. discriminate.
+    - apply Forall_forall. rewrite forallb_forall in H2. exact H2.
+    - apply N.ltb_lt. exact H3.
+  Qed.
+  Lemma tail_okb_unpack (t : text) : tail_okb U t = true ->
+    match t with c :: _ => u_lingual U c = false /\ is_ascii_digit c = false | [] => True end.
+  Proof.
+    destruct t as [|c r]; [intros _; exact I|]. cbn [tail_okb]. rewrite andb_true_iff, !negb_true_iff. tauto.
+  Qed.
+
+  Lemma segs_ok_no_at : forall (l : list inst) (post : text),
+    segs_ok U l post = true -> Forall (fun c => c <> 64%N) (mtext l post).
+  Proof.
+    induction l as [|i r IH]; intros post H; cbn [segs_ok mtext] in *.
+    - apply Forall_forall. rewrite forallb_forall in H. intros c Hc. specialize (H c Hc).
+      rewrite andb_true_iff, !negb_true_iff in H. apply N.eqb_neq. tauto.
+    - rewrite !andb_true_iff in H. destruct H as [[[[Hp Hd] Hs] _] Hr].
+      destruct (pre_okb_unpack _ Hp) as (_ & Hat & _). destruct (digits_okb_unpack _ Hd) as (_ & HD & _).
+      unfold suffix_of in Hs. destruct (from_chars [i_a i; i_b i]) as [sx|] eqn:Hfc; [|discriminate].
+      apply from_chars_row in Hfc. destruct (suffix_row _ _ _ Hfc) as (Ha & Hb & _).
+      pose proof (proj1 (alpha_range _) Ha) as Ra. pose proof (proj1 (alpha_range _) Hb) as Rb.
+      apply Forall_app. split; [exact Hat|]. apply Forall_app. split.
+      + eapply Forall_impl; [|exact HD]. intros c Hc. apply digit_range in Hc. lia.
+      + cbn [app]. constructor; [lia|]. constructor; [lia|]. apply IH. exact Hr.
+  Qed.
+
+  Lemma lex_multi : forall (l : list inst) (post : text) (fuel q : nat),
+    segs_ok U l post = true ->
+    (forall j, quiet (skipn j (mtext l post))) ->
+    length (mtext l post) <= fuel ->
+    exists L, lex_loop U ut et fuel q (mtext l post) = Ok L /\ mshp F_raw q l L.
+  Proof.
+    induction l as [|i r IH]; intros post fuel q Hseg Hq Hfuel.
+    - cbn [mtext] in *. pose proof (segs_ok_no_at [] post Hseg) as Hat. cbn [mtext] in Hat.
+      cbn [segs_ok] in Hseg.
+      destruct (lex_loop_plain fuel post q Hfuel) as (L & HL & Hn & Hw); [|exact Hat|].
+      { apply Forall_forall. rewrite forallb_forall in Hseg. intros c Hc. specialize (Hseg c Hc).
+        rewrite andb_true_iff, !negb_true_iff in Hseg. tauto. }
+      exists L. split; [exact HL | constructor; assumption].
+    - pose proof Hseg as Hseg0. cbn [segs_ok] in Hseg. rewrite !andb_true_iff in Hseg.
+      destruct Hseg as [[[[Hp Hd] Hs] Ht] Hr].
+      destruct (pre_okb_unpack _ Hp) as (Hpre & _ & Hlast).
+      destruct (digits_okb_unpack _ Hd) as (Hne & HD & Hlt).
+      unfold suffix_of in Hs. destruct (from_chars [i_a i; i_b i]) as [sx|] eqn:Hfc; [|discriminate].
+      apply from_chars_row in Hfc. rename Hfc into Hrow.
+      apply tail_okb_unpack in Ht.
+      destruct i as [pre D a b]. cbn [i_pre i_digits i_a i_b] in *. cbn [mtext i_pre i_digits i_a i_b] in *.
+      unfold text, char in *.
+      remember (mtext r post) as R eqn:ER. unfold text, char in *.
+      assert (HDs : exists d0 D', D = d0 :: D') by (destruct D as [|x y]; [contradiction | eauto]).
+      destruct HDs as (d0 & D' & ED).
+      assert (Hd0 : is_ascii_digit d0 = true) by (rewrite ED in HD; inversion HD; assumption).
+      assert (HT : pre ++ D ++ [a; b] ++ R = pre ++ d0 :: (D' ++ a :: b :: R)) by (rewrite ED; reflexivity).
+      assert (Hlen : length (pre ++ D ++ [a; b] ++ R) = length pre + length D + 2 + length R).
+      { rewrite !app_length. cbn [length]. lia. }
+      assert (HlD : 1 <= length D) by (rewrite ED; cbn [length]; lia).
+      destruct (lex_loop_pre (length pre) pre (le_n _) fuel q d0 (D' ++ a :: b :: R) Hd0 Hpre Hlast)
+        as (LA & f' & HL & Hf & HnA & HwA).
+      { intros j. unfold text, char in *. rewrite <- HT. apply Hq. }
+      { unfold text, char in *. lia. }
+      unfold text, char in *.
+      assert (HD2 : d0 :: D' ++ a :: b :: R = D ++ a :: b :: R) by (rewrite ED; reflexivity).
+      (* the number *)
+      destruct f' as [|f1]; [lia|].
+      pose proof (lex_token_number D a b sx R Hne HD Hlt Hrow) as HN. unfold text, char in HN. rewrite <- HD2 in HN.
+      rewrite (lex_loop_step _ _ _ _ _ _ HN) in HL. unfold text, char in HL. rewrite HD2, skipn_app_len in HL.
+      (* the suffix word *)
+      destruct f1 as [|f2]; [lia|].
+      assert (HqR : forall j, quiet (skipn j (a :: b :: R))).
+      { intros j. specialize (Hq (j + (length pre + length D))).
+        rewrite <- skipn_skipn in Hq. unfold text, char in *.
+        rewrite app_assoc, <- app_length, skipn_app_len in Hq. exact Hq. }
+      assert (HW : lex_token (a :: b :: R) = Some (2, KWord)).
+      { apply (lex_token_suffix a b sx R Hrow Ht). exact (HqR 0). }
+      rewrite (lex_loop_step _ _ _ _ _ _ HW) in HL. unfold text, char in HL. cbn [skipn] in HL.
+      (* the rest *)
+      destruct (IH post f2 (q + length pre + length D + 2) Hr) as (L & HLr & Hsh).
+      { intros j. rewrite <- ER. specialize (HqR (j + 2)). rewrite <- skipn_skipn in HqR. exact HqR. }
+      { rewrite <- ER. unfold text, char in *. lia. }
+      rewrite <- ER in HLr. unfold text, char in *. rewrite HLr in HL. cbn [bind] in HL.
+      exists (LA ++ F_raw q (mkinst pre D a b) ++ L). split.
+      + change ([a; b] ++ R) with (a :: b :: R). unfold text, char in *. rewrite HL. reflexivity.
+      + constructor; try assumption. unfold inst_len. cbn [i_pre i_digits].
+        refine (eq_rect _ (fun k => mshp F_raw k r L) Hsh _ _). unfold text, char in *. lia.
   Qed.
 End LexFacts.
